@@ -29,7 +29,7 @@ PROPS = {
         level="exploration",
     ),
     "C10": dict(
-        harness="sim/c10", cmd="zzverif_c10", race=True,
+        harness="sim/c10", cmd="zzverif_c10", race=True, minimise_mode=True,
         rewrite=["-m", M_PKGS, "-y", Y_PKGS,
                  "-every", "lib/j5schema/schema_cache.go,lib/j5schema/schema_set.go,lib/j5reflect/reflect.go,internal/codec/codec.go",
                  "-fieldassign", "lib/j5schema",
@@ -47,6 +47,9 @@ PROPS = {
 _scratch = []
 
 def _cleanup():
+    if os.environ.get("VERIF_KEEP"):
+        print("scratch kept:", _scratch)
+        return
     for d in _scratch:
         shutil.rmtree(d, ignore_errors=True)
 
@@ -190,7 +193,7 @@ def do_selftest(binary, prop, seed, outdir, runs, extra_args):
         out = os.path.join(outdir, "det%d.json" % i)
         env = goenv({"GOMAXPROCS": str([1, 4, 16][i % 3])})
         if PROPS[prop]["race"]:
-            env["GORACE"] = "log_path=%s halt_on_error=0" % os.path.join(outdir, "detrace%d" % i)
+            env["GORACE"] = "log_path=%s halt_on_error=0 exitcode=0 history_size=4" % os.path.join(outdir, "detrace%d" % i)
         cmd = [binary, "-mode", "worker", "-seed", str(seed), "-worker", "0", "-workers", "1", "-budget", "600",
                "-detlog", "-max-programs", os.environ.get("VERIF_SELFTEST_PROGRAMS", "6"), "-out", out] + extra_args
         procs.append((subprocess.Popen(cmd, env=env, stdout=subprocess.DEVNULL, stderr=subprocess.DEVNULL, cwd=outdir), out))
@@ -234,7 +237,7 @@ def check(prop, tier):
 
     per_env = None
     if cfg["race"]:
-        per_env = lambda w: {"GORACE": "log_path=%s halt_on_error=0 history_size=4" % os.path.join(outdir, "race.w%d" % w)}
+        per_env = lambda w: {"GORACE": "log_path=%s halt_on_error=0 exitcode=0 history_size=4" % os.path.join(outdir, "race.w%d" % w)}
     procs = spawn_workers(binary, prop, tier, seed, nworkers, budget, tcfg["args"], outdir, per_env)
     # determinism self-test slice runs alongside
     st_dir = os.path.join(d, "selftest")
@@ -283,10 +286,16 @@ def check(prop, tier):
         h = hashlib.sha256(k.encode()).hexdigest()[:10]
         path = os.path.join(VERIF, "replays", "%s-%s-seed%d.json" % (prop, h, seed))
         json.dump(v, open(path, "w"), indent=1)
+        if cfg.get("minimise_mode") and not v.get("minimised"):
+            menv = goenv()
+            r = run([binary, "-mode", "minimise", "-file", path, "-out", path + ".min"], env=menv, capture_output=True, text=True, cwd=outdir)
+            if r.returncode == 0 and os.path.exists(path + ".min"):
+                os.replace(path + ".min", path)
+                v = json.load(open(path))
         # verify in a fresh process before reporting
         env = goenv()
         if cfg["race"]:
-            env["GORACE"] = "log_path=%s halt_on_error=0 history_size=4" % os.path.join(outdir, "race.replay")
+            env["GORACE"] = "log_path=%s halt_on_error=0 exitcode=0 history_size=4" % os.path.join(outdir, "race.replay")
         r = run([binary, "-mode", "replay", "-file", path], env=env, capture_output=True, text=True, cwd=outdir)
         if r.returncode == 1:
             new_viol.append((k, path, v, r.stdout.strip()))
@@ -347,7 +356,7 @@ def replay(path):
     outdir = os.path.join(d, "out")
     os.makedirs(outdir)
     if PROPS[prop]["race"]:
-        env["GORACE"] = "log_path=%s halt_on_error=0 history_size=4" % os.path.join(outdir, "race.replay")
+        env["GORACE"] = "log_path=%s halt_on_error=0 exitcode=0 history_size=4" % os.path.join(outdir, "race.replay")
     r = run([binary, "-mode", "replay", "-file", os.path.abspath(path)], env=env, capture_output=True, text=True, cwd=outdir)
     sys.stdout.write(r.stdout)
     sys.stderr.write(r.stderr[-3000:])
